@@ -26,24 +26,24 @@ NATIVE_PY = os.environ.get('PYVC_NATIVE_PY', '/venv/bin/python')
 # property -> contract modules that carry its harnesses
 MODULES = {
     'C15': ['contracts.c15'],
-    'C03': ['contracts.c03'],
+    'C03': ['contracts.c03', 'contracts.whole_supernet'],
     'C19': ['contracts.c19'],
     'C16': ['contracts.c16', 'contracts.c15'],
     'C13': ['contracts.c13'],
     'C10': ['contracts.c10'],
-    'C11': ['contracts.c11', 'contracts.pit_graph', 'contracts.whole_pit'],
+    'C11': ['contracts.c11', 'contracts.pit_graph', 'contracts.whole_pit', 'contracts.whole_mps'],
     'C08': ['contracts.pit_layers', 'contracts.pit_graph', 'contracts.whole_pit'],
     'C01': ['contracts.pit_layers', 'contracts.pit_graph', 'contracts.whole_pit'],
     'C04': ['contracts.pit_layers', 'contracts.wrappers', 'contracts.c15', 'contracts.pit_graph'],
     'C12': ['contracts.pit_layers', 'contracts.wrappers', 'contracts.c16', 'contracts.c13', 'contracts.c10'],
-    'C05': ['contracts.mps_layers', 'contracts.wrappers', 'contracts.pit_graph'],
-    'C02': ['contracts.mps_layers'],
+    'C05': ['contracts.mps_layers', 'contracts.wrappers', 'contracts.pit_graph', 'contracts.whole_mps'],
+    'C02': ['contracts.mps_layers', 'contracts.whole_mps'],
     'C06': ['contracts.wrappers', 'contracts.pit_graph'],
-    'C18': ['contracts.wrappers', 'contracts.pit_layers', 'contracts.mps_layers', 'contracts.whole_pit'],
+    'C18': ['contracts.wrappers', 'contracts.pit_layers', 'contracts.mps_layers', 'contracts.whole_pit', 'contracts.whole_supernet'],
     'C09': ['contracts.c09', 'contracts.pit_layers', 'contracts.pit_graph', 'contracts.whole_pit'],
     'C14': ['contracts.c14'],
     'C20': ['contracts.c20'],
-    'C07': ['contracts.c07', 'contracts.wrappers', 'contracts.whole_pit'],
+    'C07': ['contracts.c07', 'contracts.wrappers', 'contracts.whole_pit', 'contracts.whole_supernet', 'contracts.whole_mps'],
 }
 
 EXTRACTION_DROPS = ['docstrings', 'type annotations', 'typing.cast (identity)', 'with torch.no_grad() (body kept)',
